@@ -11,7 +11,10 @@ RULE = ('random circuits through the public API (Verilog-reader and bench-reader
         'one or two outputs); per circuit: exact correspondence of the Lean SimOps model with the real ops/levels/memory map for '
         '{strip_forks}x{c_reuse}; oracle = spec-level gate-by-gate evaluator (Lean, uses formula not LUTs) vs real LogicSim(m=2) '
         'for several batch sizes (not multiples of 8), both c_prop code paths, k=1..4 cycles. distinct = circuit dumps x option tuple; '
-        'non-trivial = at least 2 ops and at least one captured 0 and one captured 1')
+        'non-trivial = at least 2 ops and at least one captured 0 and one captured 1; cycle_tie: sequential circuits (0-4 state elements, '
+        'flip-flop without outputs, open data pin, toggle flip-flop) x m in {2,4,8} x {strip_forks} x {c_reuse} x both code paths x k=0..5, random '
+        's[0]/s[1] in all planes: real pippi/poppo/ppio_s_locs, pippi/poppo_c_locs and s[0], s[1] after LogicSim.cycle(k) = Lean model cycleKA '
+        '(Model/Cycle.lean), certificates stateOutsB/zeroCapB/capDriversB/forksOKB on the real tables')
 
 
 def theorems():
